@@ -1118,6 +1118,9 @@ class Translator:
         if spec.get("mode") == "ctx":
             from . import ctx2lean
             return ctx2lean.translate(self, name, spec, fn)
+        if spec.get("mode") == "entry":
+            from . import entry2lean
+            return entry2lean.translate(self, name, spec, fn)
         if spec.get("mode") == "hist":
             from . import hist2lean
             return hist2lean.translate(self, name, spec, fn)
